@@ -234,9 +234,15 @@ def addArgument (st : St) (n : Option Nat) (value : Entry) : Except CErr St :=
 
 /-! ## `Conversion.__init__` -/
 
+/-- CPython's `int()` refuses a decimal string of more than `sys.get_int_max_str_digits()` digits - unless that limit
+    is 0 (= no limit; what lib/__init__.py sets since the `fix:` commit 871d4d7). -/
+def IntFits (n : Nat) : Prop := intMaxStrDigits = 0 ∨ n ≤ intMaxStrDigits
+
+instance : DecidablePred IntFits := fun n => by unfold IntFits; infer_instance
+
 /-- Python `int(s)` on a string of ASCII digits -/
 def pyInt (ds : List Char) : Except CErr Nat :=
-  if ds.length > intMaxStrDigits then .error (.crash .ValueError) else .ok (decimal ds)
+  if IntFits ds.length then .ok (decimal ds) else .error (.crash .ValueError)
 
 /-- `n = int(x.rstrip('$')); if not (0 < n <= NL_ARGMAX): raise ArgumentRangeError` -/
 def argIndex (ds : List Char) : Except CErr Nat :=
